@@ -104,6 +104,11 @@ def relaxation_cases(ctx, rng):
         times = np.linspace(0, 20.0, 200) if grid == "uniform" else np.array([0.0, 1e2, 1e4, 1e6, 1e8])
         cases.append(dict(kind="single", table=tb, table_kind="relax", pi=pi, pf=pf, nx=12, times=times, grid=grid, relax=True))
         cases.append(dict(kind="ideal", pi=5000.0, pf=100.0, nx=12, times=times, grid=grid, relax=True))
+    # fine grids, where the iterative solver of the ideal reservoir is known to break down and the direct-solve fallback decides
+    # whether the bounds survive
+    for nx, grid in ((320, "quadratic"), (400, "geometric"), (512, "uniform")):
+        tg = np.linspace(0, 3, 160) ** 2 if grid == "quadratic" else np.concatenate([[0.0], np.geomspace(1e-6, 9.0, 120)]) if grid == "geometric" else np.linspace(0, 9.0, 160)
+        cases.append(dict(kind="ideal", pi=5000.0, pf=100.0, nx=nx, times=tg, grid=grid))
     return cases
 
 
